@@ -157,8 +157,7 @@ def units(tier):
     for s in range(ns if th else 2):
         for producer in ("ordered", "unordered"):
             yield {"leg": "invalid", "stream": s, "dest": "new-group", "producer": producer, "symm": False}
-    if th:
-        yield {"leg": "bigdup"}
+    yield {"leg": "bigdup"}
     for s in range(ns if th else 2):
         for dest in DESTS:
             for producer in ("ordered", "unordered", "merge", "coarsen"):
@@ -424,7 +423,7 @@ def _mapfail(R, dest, only):
     scratch.rm(wd)
 
 
-def _bigdup(R, only):
+def _bigdup(R, only, tier="quick"):
     """one in-memory table of 1,000,003 rows in which a pixel occurs twice, the two sorted copies sitting on either side of row
     1,000,000 (and, as a control, far from it): must be rejected wherever the copies are"""
     import cooler
@@ -435,7 +434,7 @@ def _bigdup(R, only):
     R.add("states")
     R.add("traces")
     wd = scratch.sub(f"c13big_{os.getpid()}")
-    for at in (999999, 1000000, 500, 999998):
+    for at in ((999999, 1000000, 500, 999998) if tier == "thorough" else (1000000, 500)):
         inner = {"duplicate_of_sorted_row": at}
         if only is not None and only != inner:
             continue
@@ -474,6 +473,6 @@ def run(unit, R, tier, only=None):
     elif leg == "mapfail":
         _mapfail(R, unit["dest"], only)
     elif leg == "bigdup":
-        _bigdup(R, only)
+        _bigdup(R, only, tier)
     else:
         raise ValueError(leg)
